@@ -88,17 +88,26 @@ def except_sites(repo):
 
 def except_allowed():
     p = os.path.join(HERE, 'except_sites_allowed.json')
-    return {tuple(x) for x in json.load(open(p))} if os.path.exists(p) else set()
+    return [tuple(x) for x in json.load(open(p))] if os.path.exists(p) else []
 
 
 def except_items(repo):
-    """NativeFacts items: one per except clause; it must be a recorded (reviewed) clause with exactly the recorded class set"""
-    allow = except_allowed()
+    """NativeFacts items.  One per RECORDED handler: the function still has a handler intercepting exactly those classes (widening,
+    narrowing or removing a recorded handler fails it -- that changes which errors leave glom() and as what).  A handler that is not
+    recorded yields an undecided item (None): new code needs review / a contract, it is not by itself a violation."""
+    from collections import Counter
+    rec = Counter((m, fn, classes, kind) for m, fn, _k, classes, kind in except_allowed())
+    found = Counter((m, fn, classes, kind) for m, fn, _k, classes, kind in except_sites(repo))
     res = []
-    for site in except_sites(repo):
-        m, fn, k, classes, kind = site
-        def thunk(facts, site=site):
-            return site in allow
-        res.append(('%s.%s except#%d (%s) %s' % (m, fn, k, classes, kind),
-                    'the handler intercepts exactly the recorded exception classes (a widened / narrowed / new handler changes which errors leave glom() and as what)', thunk))
+    for key in sorted(rec):
+        for i in range(rec[key]):
+            m, fn, classes, kind = key
+            res.append(('%s.%s except (%s) %s #%d' % (m, fn, classes, kind, i + 1),
+                        'the recorded handler is still there and intercepts exactly the recorded exception classes',
+                        (lambda facts, key=key, i=i: found[key] > i)))
+    for key in sorted(found):
+        for i in range(rec.get(key, 0), found[key]):
+            m, fn, classes, kind = key
+            res.append(('%s.%s except (%s) %s [unrecorded #%d]' % (m, fn, classes, kind, i + 1),
+                        'a handler that is not in contracts/except_sites_allowed.json: review it and record it', (lambda facts: None)))
     return res
